@@ -45,7 +45,11 @@ func explainMain(args []string) int {
 		}
 	}
 	model := familyModel(doc.Witness.Family)
-	pops := toPorcupine(ops, nil)
+	relax := map[string]bool{}
+	for _, a := range args[1:] { // optional excuses: setnx lpop rpop del
+		relax[a] = true
+	}
+	pops := toPorcupine(ops, relax)
 	res, info := porcupine.CheckOperationsVerbose(model, pops, time.Minute)
 	fmt.Println("key", doc.Witness.Key, "family", doc.Witness.Family, "ops", len(ops), "result", res)
 	if res == porcupine.Ok {
